@@ -377,10 +377,74 @@ class GeneralMirrors(Contract):
         return cl
 
     def concretise(self, model, st):
-        return None
+        return dict((k, v if not isinstance(v, SV) else concretise.value_of(model, v)) for k, v in st["f"].items())
 
-    def native_eval(self, inputs):
-        raise NotImplementedError
+    def sample_inputs(self, rng):
+        base = {"rel.name": "Fedora", "rel.version": "21", "rel.short": "F", "tree.arch": "x86_64", "tree.ts": 1417653911, "tree.p": "xen"}
+        for uids in (("Server", "Client"), ("A", "B"), ("BaseOS", "AppStream")):
+            for arch in ("x86_64", "src"):
+                f = dict(base, **{"tree.arch": arch})
+                for i in range(self.nvar):
+                    f["v%d.uid" % i] = uids[i]
+                    for pn in self.PATHS:
+                        f["v%d.%s" % (i, pn)] = "%s/%s" % (uids[i], pn) if (i + len(pn)) % 3 else None
+                    if self.mode == "flat":
+                        f.update({"v%d.packages" % i: "Packages", "v%d.repository" % i: ".", "v%d.source_packages" % i: None,
+                                  "v%d.source_repository" % i: None})
+                yield f
+
+    def native_eval(self, f):
+        TI = self.src.mods["treeinfo"]
+        ti = TI.TreeInfo()
+        ti.release.name, ti.release.version, ti.release.short = f["rel.name"], f["rel.version"], f["rel.short"]
+        ti.tree.arch, ti.tree.build_timestamp, ti.tree.platforms = f["tree.arch"], f["tree.ts"], set([f["tree.p"]])
+        uids = [f["v%d.uid" % i] for i in range(self.nvar)]
+        if len(set(uids)) != len(uids) or not all(isinstance(u, str) for u in uids):
+            return ("skip", None), None
+        for i, u in enumerate(uids):
+            v = TI.Variant(ti)
+            v.id = v.uid = u
+            v.name, v.type = "N%d" % i, "variant"
+            for pn in self.PATHS:
+                setattr(v.paths, pn, f.get("v%d.%s" % (i, pn)))
+            ti.variants.variants[u] = v          # inserted in index order, whatever the names are
+        try:
+            ti.release.validate()
+            ti.tree.validate()
+        except Exception:
+            return ("skip", None), None
+        if not isinstance(f["tree.ts"], int):
+            return ("skip", None), None
+        parser = ti._get_parser()
+        mv = uids[self.nvar - 1] if self.main else None
+        nat = native_call(ti.serialize, parser, main_variant=mv)
+        if nat[0] == "raise":
+            return nat, {"valid_tree_is_written": False}
+        if not (parser.has_section("general") and parser.has_section("release") and parser.has_section("tree")):
+            return nat, {"general_section_written": False}
+        g, r, t = dict(parser.items("general")), dict(parser.items("release")), dict(parser.items("tree"))
+        first = mv if self.main else sorted(uids)[0]
+        i = uids.index(first)
+        is_src = f["tree.arch"] == "src"
+        pk = True
+        for opt, prim, fall in (("packagedir", "packages", "source_packages"), ("repository", "repository", "source_repository")):
+            pv, fv = f.get("v%d.%s" % (i, prim)), f.get("v%d.%s" % (i, fall))
+            exp = pv if pv is not None else (fv if is_src else None)
+            pk = pk and g.get(opt) == exp
+        cl = {"general_section_written": True,
+              "family_version_name_mirror_release": g.get("family") == r.get("name") and g.get("version") == r.get("version") and
+              g.get("name") == "%s %s" % (f["rel.name"], f["rel.version"]),
+              "arch_platforms_mirror_tree": g.get("arch") == t.get("arch") == f["tree.arch"] and g.get("platforms") == t.get("platforms"),
+              "timestamp_is_integer_build_timestamp": g.get("timestamp") == str(int(f["tree.ts"])),
+              "variant_is_requested_or_first": g.get("variant") == first,
+              "variants_lists_sorted_top_level": g.get("variants") == ",".join(sorted(uids)),
+              "tree_variants_option_sorted_like_general": t.get("variants") == g.get("variants"),
+              "packagedir_repository_of_main_variant": pk}
+        return nat, cl
+
+    def describe(self, f):
+        return "TreeInfo.serialize(%s) with top-level variants inserted in the order %r" % (
+            "main_variant=%r" % f["v%d.uid" % (self.nvar - 1)] if self.main else "no main_variant", [f["v%d.uid" % i] for i in range(self.nvar)])
 
 
 def contracts(src, T):          # noqa: F811
